@@ -428,6 +428,7 @@ func (p *prop) genE2E(rng *core.Rand) string {
 }
 
 var malformed = []string{
+	"ca", "ca 1", "ca 00000000", "ca 0100000", "ca 2000000", "ca 1300000", "ca 1000006", "ca 100000x", "ca 1000000 1",
 	"e2e", "e2e 0 f 2d 2d", "e2e 0 p1 7075626c69632e74657374", "e2e 1 p2 7075626c69632e74657374 2d", "e2e 0 p1 3132372e302e302e31 2d", "e2e 2 p1 612e 2d",
 	"e2e 1 p1 c3a8 2d", "e2e 0 f zz 2d", "e2e 0 f 7075626c69632e74657374 2d x", "e2e 3 f 7075626c69632e74657374 2d", "e2e f 7075626c69632e74657374 2d", "e2e 00 f 7075626c69632e74657374 2d",
 	"", "pol", "enf", "xyz 1 2 3", "pol 0 . .", "pol 2 . 2d/0/6/0000000000000000", "pol 0 -/~/~", "pol 0 -/~ 2d/0/6/0000000000000000",
@@ -507,6 +508,21 @@ func (p *prop) Generate(rng *core.Rand, tier string, emit func(string)) {
 	rp, re, rb, r2 := rng.Fork(), rng.Fork(), rng.Fork(), rng.Fork()
 	for _, m := range malformed {
 		emit(m)
+	}
+	// client_authentication field by field: EVERY combination, every run
+	emit("ca 0000000")
+	for a := 0; a < 2; a++ {
+		for b := 0; b < 3; b++ {
+			for c := 0; c < 3; c++ {
+				for d := 0; d < 3; d++ {
+					for e := 0; e < 2; e++ {
+						for m := 0; m < 6; m++ {
+							emit(fmt.Sprintf("ca 1%d%d%d%d%d%d", a, b, c, d, e, m))
+						}
+					}
+				}
+			}
+		}
 	}
 	// interleave so that a truncated run still sees both kinds
 	for i := 0; i < nPol || i < nEnf; i++ {
